@@ -2,3 +2,4 @@ import Properties.C19
 import Properties.C13
 import Properties.C20
 import Properties.C01V2
+import Properties.C06V2
